@@ -835,7 +835,9 @@ NEED = {
 EXCUSABLE = {"C13": ["FilesArrive"], "C14": [], "C15": ["DryRunFrame", "DeepByContent", "ExcludeFrame"]}
 SIZES = {  # (generated cases, shards, random deeper trees, cases of the steps model)
     "quick": {"C13": (4000, 4, 500, 60), "C14": (3000, 4, 500, 60), "C15": (3000, 4, 400, 120)},
-    "thorough": {"C13": (100000, 16, 6000, 400), "C14": (64000, 16, 6000, 400), "C15": (108000, 16, 5000, 1500)},
+    # thorough = FULL option product (C13 5760 rows, C14 960, C15 36000), every row with several project pairs; measured at 8 processes on a
+    # machine with load average > 100: C13 100000+6000 executions 37 min, C14 64000+6000 26 min -> sized for <= 30 min at 16 processes
+    "thorough": {"C13": (80000, 16, 5000, 400), "C14": (56000, 16, 5000, 400), "C15": (72000, 16, 4000, 1500)},
 }
 
 
